@@ -117,9 +117,12 @@ func bigDecCodecs(raw *big.Int, full bool) []codecResult {
 				return new(big.Int).Set(raw), nil
 			}))
 	}
-	if v.BigIntMut().Cmp(raw) != 0 {
-		out = append(out, codecResult{name: "EncodersMutate", err: "value changed by encoding: " + fmtDec(v.BigIntMut(), 36)})
-	}
+	out = append(out, safely("EncodersMutate", func() (*big.Int, error) {
+		if b := v.BigIntMut(); b == nil || b.Cmp(raw) != 0 {
+			return nil, fmt.Errorf("value changed by encoding: %v", b)
+		}
+		return new(big.Int).Set(raw), nil
+	}))
 	return out
 }
 
@@ -206,7 +209,7 @@ func decCodecs(raw *big.Int, full bool) []codecResult {
 			}))
 	}
 	if v.BigIntMut().Cmp(raw) != 0 {
-		out = append(out, codecResult{name: "EncodersMutate", err: "value changed by encoding: " + fmtDec(v.BigIntMut(), 18)})
+		out = append(out, codecResult{name: "EncodersMutate", err: "value changed by encoding: " + fmt.Sprint(v.BigIntMut())})
 	}
 	return out
 }
@@ -283,6 +286,8 @@ func (h *H) roundTrip(dom domain, raw *big.Int, full bool) {
 			o := "ok"
 			if c.err != "" {
 				o = "refused"
+			} else if c.got == nil {
+				o = "wrong <nil>"
 			} else if c.got.Cmp(raw) != 0 {
 				o = "wrong " + c.got.String()
 			}
@@ -292,6 +297,8 @@ func (h *H) roundTrip(dom domain, raw *big.Int, full bool) {
 		switch {
 		case c.err != "":
 			kindStr, detail = "refused", "error="+c.err
+		case c.got == nil:
+			kindStr, detail = "wrong", "decoded=<nil value>"
 		case c.got.Cmp(raw) != 0:
 			kindStr, detail = "wrong", "decoded="+fmtDec(c.got, dom.prec())
 		default:
